@@ -17,11 +17,14 @@ def validate_protocol(rep, wd, tdir):
                     d = json.loads(line)
                 except ValueError:
                     continue        # a worker killed mid-write
-                total += 1
+                if "count" in d:
+                    total += d["count"]
+                    continue
                 key = json.dumps([d["p"], d["closed"]])
                 if key not in shapes:
                     shapes[key] = d
-    if total == 0:
+    total = max(total, len(shapes))     # workers report their parse count every 1000 parses
+    if not shapes:
         raise Inconclusive("no lexer/parser protocol events were recorded (hooks missing?)")
     lines = [json.dumps(shapes[k]) for k in sorted(shapes)]
     tp = os.path.join(wd, "trace_lexproc.ndjson")
